@@ -12,7 +12,10 @@ static std::string arg(int argc, char** argv, const char* name, const char* def 
 static Stats st; static bool failed = false; static std::string fsig, fmsg, freplay;
 static void fail(const std::string& sig, const std::string& msg, const std::string& rp) { if (!failed) { failed = true; fsig = sig; fmsg = msg; freplay = rp; } }
 
+static std::string g_prefix;   // calls made earlier in the current call history (part of the replay: the function must not depend on them)
+static bool g_in_history = false;
 static inline bool check(uint32_t B, uint32_t L, uint32_t E, bool* nontrivial = nullptr) {
+  if (g_in_history) { char l[64]; snprintf(l, sizeof l, "B=%u L=%u E=%u\n", B, L, E); g_prefix += l; }
   uint32_t o[5] = {0, 0, 0, 0, 0};
   shp_blk_compute(B, L, E, o);
   uint64_t T = ((uint64_t)L + E - 1) / E;
@@ -31,7 +34,7 @@ static inline bool check(uint32_t B, uint32_t L, uint32_t E, bool* nontrivial = 
     char rp[128]; snprintf(rp, sizeof rp, "B=%u L=%u E=%u\n", B, L, E);
     char m[256]; snprintf(m, sizeof m, "B=%u L=%u E=%u: got N=%u I=%u A_large=%u A_small=%u, RFC 5052 gives N=%llu I=%llu A_large=%llu A_small=%llu",
                           B, L, E, o[3], o[0], o[1], o[2], (unsigned long long)N, (unsigned long long)I, (unsigned long long)Al, (unsigned long long)As);
-    fail(std::string("C20/BLOCKING/") + why, m, rp);
+    fail(std::string("C20/BLOCKING/") + why, std::string(m) + (g_in_history ? " (last call of a history of calls: the replay holds all of them)" : ""), g_in_history ? g_prefix : std::string(rp));
     return false;
   }
   return true;
@@ -64,7 +67,7 @@ int main(int argc, char** argv) {
     fprintf(rep, "REPLAY-PASS\n"); return 0;
   }
   uint32_t R = thorough ? 4096 : 1536;
-  st.rule = "complete: every T, B in 1.." + std::to_string(R) + " with E=1, and for E in {2,3,1024} L in {T*E, T*E-1, (T-1)*E+1}; sampled (seeded): L, E, B over the full 32-bit range with boundary bias (powers of two +-1, 2^31, 2^32-1, B=1, E=1, E>L) and structured near-integer quotients (L = q*E + d and T = q*B + d with E or B above 10^9, d in 0..5); non-trivial = T not divisible by N and N >= 2; distinct = distinct (B, L, E)";
+  st.rule = "complete: every T, B in 1.." + std::to_string(R) + " with E=1, and for E in {2,3,1024} L in {T*E, T*E-1, (T-1)*E+1}; sampled (seeded): L, E, B over the full 32-bit range with boundary bias (powers of two +-1, 2^31, 2^32-1, B=1, E=1, E>L) and structured near-integer quotients (L = q*E + d and T = q*B + d with E or B above 10^9, d in 0..5); call histories (the same question asked again after d other questions with changing symbol sizes, every d up to a bound: the answer may depend on nothing but B, L, E); non-trivial = T not divisible by N and N >= 2, or a call history; distinct = distinct (B, L, E) / distinct history";
   st.exhaustive = true;
   st.subspaces.push_back("T,B in 1.." + std::to_string(R) + " (E=1 and E in {2,3,1024} with three L per T): complete; full 32-bit range: sampled");
   // complete small range, B sharded over workers
@@ -111,6 +114,36 @@ int main(int argc, char** argv) {
       }
       if (L >= 1 && L <= 0xFFFFFFFFull && L > d + 1) { check(big, (uint32_t)(L - d - 1), 1, &nt); st.evaluations++; }
     }
+  }
+  // call histories: the result is a function of (B, L, E) alone, whatever was asked before. A probe is asked with one symbol
+  // size, then d other questions follow (same or changing symbol sizes, same or changing (B, L)), then the probe is asked
+  // again with another symbol size; every distance d up to a bound, and around 2^j beyond it (counters of calls or of changes)
+  {
+    std::vector<uint32_t> ds;
+    uint32_t dense = thorough ? 2100 : 1100;
+    for (uint32_t d = 0; d <= dense; d++) ds.push_back(d);
+    if (thorough) for (uint32_t j = 12; j <= 16; j++) for (int t = -3; t <= 3; t++) ds.push_back((1u << j) + t);
+    static const uint32_t probes[3][2] = {{64, 100255}, {7, 1000}, {1000, 999999}};
+    static const uint32_t epairs[2][2] = {{1, 4}, {3, 2}};
+    uint64_t hidx = 0, hist_calls = 0, hists = 0;
+    for (uint32_t d : ds) for (int pr = 0; pr < 3; pr++) for (int ep = 0; ep < 2; ep++) for (int fl = 0; fl < 3 && !failed; fl++) {
+      if ((hidx++ % (uint64_t)nworkers) != (uint64_t)worker) continue;
+      g_in_history = true; g_prefix.clear();
+      check(probes[pr][0], probes[pr][1], epairs[ep][0]);
+      for (uint32_t i = 0; i < d && !failed; i++) {
+        uint32_t fb = fl == 1 ? 10 + i % 5 : 10, fL = fl == 1 ? 700 + i : 777;
+        uint32_t fe = fl == 2 ? 2 : (fl == 1 ? (i % 3 == 0 ? 2 : i % 3 == 1 ? 3 : 5) : (i % 2 ? 3 : 2));
+        check(fb, fL, fe);
+      }
+      bool nt = false;
+      if (!failed) check(probes[pr][0], probes[pr][1], epairs[ep][1], &nt);
+      g_in_history = false;
+      hist_calls += d + 2; hists++; st.evaluations += d + 2;
+      st.nontrivial++; st.distinct.insert(mix2(mix2(0x4157, d), (uint64_t)pr * 16 + ep * 4 + fl));
+    }
+    g_prefix.clear();
+    st.counters["history_cases"] += hists; st.counters["history_calls"] += hist_calls;
+    st.subspaces.push_back("call histories: probe, d other calls, probe again with another symbol size; every d in 0.." + std::to_string(dense) + std::string(thorough ? " and 2^j +-3 for j = 12..16" : "") + " x 3 probes x 2 symbol-size pairs x 3 filler patterns: complete");
   }
   uint64_t ns = thorough ? 6000000 : 80000;
   for (uint64_t i = 0; i < ns && !failed; i++) {
